@@ -3,6 +3,9 @@
   `mainlineOrdering` of VModel.StateRes) computes what VModel.StateResSpec defines (`IsMainline`, `posOf`,
   `MainlinePosSteps`, `IsMainlineOrder`), for an acyclic auth map; each of the definitions determines its
   output.  The fuel of the model's loops is justified by a depth bound obtained from acyclicity (pigeonhole).
+  The model's two recursions carry the cycle guard of the code (`path` = the events the iterator is inside of); on an
+  acyclic auth map the guard never fires (§2b), so they equal the plain recursions `mainlineIterU` / `firstMainlineU`
+  the definition describes, about which §3–§5 reason.
   Core only.
 -/
 import VModel.StateResSpec
@@ -14,6 +17,29 @@ open V Json
 open V.StateRes (ID findByID isPLEvent mainlineIter createMainline mainlinePos firstMainline otherKey otherLt
   OtherKey insertBy sortBy mainlineOrdering findByID_some StrictTotal sortBy_perm mem_sortBy sortBy_sorted
   SortedBy KeyInj sorted_unique otherLt_strictTotal)
+
+/-! ## 0. The two recursions without the cycle guard -/
+
+/-- `StateRes.mainlineIter` without the `path` guard -/
+def mainlineIterU (authMap : List Event) : Nat → Event → List Event → List Event
+  | 0, _, acc => acc
+  | fuel + 1, e, acc =>
+    (e.authEventIDs.filterMap (findByID authMap)).foldl
+      (fun a p => if isPLEvent p then mainlineIterU authMap fuel p a else a) (e :: acc)
+
+/-- `StateRes.firstMainline` without the `path` guard -/
+def firstMainlineU (authMap mainline : List Event) : Nat → Event → Nat × Nat → Nat × Nat
+  | 0, _, st => st
+  | fuel + 1, e, st =>
+    let rec go (ps : List Event) (st : Nat × Nat) : Nat × Nat :=
+      match ps with
+      | [] => st
+      | p :: rest =>
+        if !isPLEvent p then go rest st
+        else match mainlinePos mainline p.eventID with
+          | some pos => (pos, st.2)
+          | none => go rest (firstMainlineU authMap mainline fuel p (st.1, st.2 + 1))
+    go (e.authEventIDs.filterMap (findByID authMap)) st
 
 variable {m ml : List Event}
 
@@ -107,6 +133,100 @@ theorem depthLE_aux (hac : Acyclic (· ∈ m)) : ∀ (n : Nat) (vis : List Event
 theorem depthLE_of_acyclic (hac : Acyclic (· ∈ m)) (e : Event) : DepthLE m e (m.length + 1) :=
   depthLE_aux hac m.length [] e List.nodup_nil (fun _ h => by cases h) (fun _ h => by cases h) (by simp)
 
+/-! ## 2b. On an acyclic auth map the cycle guard of the model never fires -/
+
+/-- every ID on the path names an event of the map that reaches `e` -/
+def PathOK (m : List Event) (path : List ID) (e : Event) : Prop :=
+  ∀ id ∈ path, ∃ v, findByID m id = some v ∧ Reach (· ∈ m) v e
+
+theorem pathOK_nil (e : Event) : PathOK m [] e := fun _ h => by cases h
+
+/-- a parent of `e` found in the map is not on the path (that would close a cycle), and the path extended by it is
+    again a path of ancestors -/
+theorem guard_silent (hac : Acyclic (· ∈ m)) {path : List ID} {e p : Event}
+    (hp : p ∈ e.authEventIDs.filterMap (findByID m)) (hok : PathOK m path e) :
+    path.contains p.eventID = false ∧ PathOK m (p.eventID :: path) p := by
+  obtain ⟨pid, hpid, hf⟩ := List.mem_filterMap.mp hp
+  obtain ⟨hpm, hpe⟩ := findByID_some hf
+  have hedge : AuthEdge (· ∈ m) e p := ⟨hpm, hpe ▸ hpid⟩
+  have hfp : findByID m p.eventID = some p := by rw [hpe]; exact hf
+  constructor
+  · cases hc : path.contains p.eventID with
+    | false => rfl
+    | true =>
+      have hmem : p.eventID ∈ path := List.contains_iff_mem.mp hc
+      obtain ⟨v, hv, hr⟩ := hok _ hmem
+      rw [hfp] at hv
+      cases hv
+      exact (hac p (hr.snoc hedge)).elim
+  · intro id hid
+    rcases List.mem_cons.mp hid with rfl | hid
+    · exact ⟨p, hfp, Or.inl rfl⟩
+    · obtain ⟨v, hv, hr⟩ := hok id hid
+      exact ⟨v, hv, Or.inr (hr.snoc hedge)⟩
+
+theorem foldl_congr_mem {α β : Type} {f g : α → β → α} : ∀ (l : List β) (a : α),
+    (∀ a, ∀ b ∈ l, f a b = g a b) → l.foldl f a = l.foldl g a := by
+  intro l
+  induction l with
+  | nil => intro a _; rfl
+  | cons b l ih =>
+    intro a h
+    rw [List.foldl_cons, List.foldl_cons, h a b List.mem_cons_self]
+    exact ih _ (fun a' b' hb' => h a' b' (List.mem_cons_of_mem _ hb'))
+
+/-- `createPowerLevelMainline`'s guarded iterator is the plain recursion on an acyclic auth map -/
+theorem mainlineIter_eq_U (hac : Acyclic (· ∈ m)) : ∀ (fuel : Nat) (path : List ID) (e : Event) (acc : List Event),
+    PathOK m path e → mainlineIter m fuel path e acc = mainlineIterU m fuel e acc := by
+  intro fuel
+  induction fuel with
+  | zero => intro path e acc _; rfl
+  | succ fuel ih =>
+    intro path e acc hok
+    show List.foldl _ _ _ = List.foldl _ _ _
+    apply foldl_congr_mem
+    intro a p hp
+    obtain ⟨hc, hok'⟩ := guard_silent hac hp hok
+    simp only [hc, Bool.not_false, Bool.and_true]
+    split
+    · exact ih _ _ _ hok'
+    · rfl
+
+theorem firstMainline_go_eq_U (hac : Acyclic (· ∈ m)) {fuel : Nat}
+    (ih : ∀ path e st, PathOK m path e → firstMainline m ml fuel path e st = firstMainlineU m ml fuel e st)
+    {path : List ID} {e : Event} (hok : PathOK m path e) : ∀ (ps : List Event) (st : Nat × Nat),
+    (∀ p ∈ ps, p ∈ e.authEventIDs.filterMap (findByID m)) →
+    V.StateRes.firstMainline.go m ml fuel path ps st = firstMainlineU.go m ml fuel ps st := by
+  intro ps
+  induction ps with
+  | nil => intro st _; rw [V.StateRes.firstMainline.go.eq_1, firstMainlineU.go.eq_1]
+  | cons p rest ihr =>
+    intro st hsub
+    have hrest := fun st' => ihr st' (fun q hq => hsub q (List.mem_cons_of_mem _ hq))
+    obtain ⟨hc, hok'⟩ := guard_silent hac (hsub p List.mem_cons_self) hok
+    rw [V.StateRes.firstMainline.go.eq_2, firstMainlineU.go.eq_2, hc]
+    by_cases hpl : (!isPLEvent p) = true
+    · rw [if_pos hpl, if_pos hpl]
+      exact hrest st
+    · rw [if_neg hpl, if_neg hpl]
+      cases hpos : mainlinePos ml p.eventID with
+      | some pos => rfl
+      | none =>
+        simp only [Bool.false_eq_true, if_false]
+        rw [ih _ _ _ hok']
+        exact hrest _
+
+/-- `getFirstPowerLevelMainlineEvent`'s guarded iterator is the plain recursion on an acyclic auth map -/
+theorem firstMainline_eq_U (hac : Acyclic (· ∈ m)) : ∀ (fuel : Nat) (path : List ID) (e : Event) (st : Nat × Nat),
+    PathOK m path e → firstMainline m ml fuel path e st = firstMainlineU m ml fuel e st := by
+  intro fuel
+  induction fuel with
+  | zero => intro path e st _; rw [V.StateRes.firstMainline.eq_1, firstMainlineU.eq_1]
+  | succ fuel ih =>
+    intro path e st hok
+    rw [V.StateRes.firstMainline.eq_2, firstMainlineU.eq_2]
+    exact firstMainline_go_eq_U hac ih hok _ st (fun _ h => h)
+
 /-! ## 3. Mainline -/
 
 theorem MainlineOf.unique {ps l₁ l₂ : List Event} (h1 : MainlineOf m ps l₁) (h2 : MainlineOf m ps l₂) : l₁ = l₂ := by
@@ -118,15 +238,15 @@ theorem MainlineOf.unique {ps l₁ l₂ : List Event} (h1 : MainlineOf m ps l₁
 
 /-- the model's loop tests `isPLEvent` inside a fold over all auth events: same as folding over `plParents` -/
 theorem mainlineIter_succ (m : List Event) (fuel : Nat) (e : Event) (acc : List Event) :
-    mainlineIter m (fuel + 1) e acc = (plParents m e).foldl (fun a p => mainlineIter m fuel p a) (e :: acc) := by
+    mainlineIterU m (fuel + 1) e acc = (plParents m e).foldl (fun a p => mainlineIterU m fuel p a) (e :: acc) := by
   rw [plParents_eq, List.foldl_filter]
   rfl
 
 /-- the inner fold, given the result for the recursive calls -/
 theorem mainline_fold {fuel : Nat}
-    (ih : ∀ e, DepthLE m e fuel → ∃ lp, MainlineOf m (plParents m e) lp ∧ ∀ acc, mainlineIter m fuel e acc = lp ++ e :: acc) :
+    (ih : ∀ e, DepthLE m e fuel → ∃ lp, MainlineOf m (plParents m e) lp ∧ ∀ acc, mainlineIterU m fuel e acc = lp ++ e :: acc) :
     ∀ ps : List Event, (∀ p ∈ ps, DepthLE m p fuel) →
-      ∃ l, MainlineOf m ps l ∧ ∀ acc, ps.foldl (fun a p => mainlineIter m fuel p a) acc = l ++ acc := by
+      ∃ l, MainlineOf m ps l ∧ ∀ acc, ps.foldl (fun a p => mainlineIterU m fuel p a) acc = l ++ acc := by
   intro ps
   induction ps with
   | nil => intro _; exact ⟨[], .nil, fun acc => rfl⟩
@@ -139,7 +259,7 @@ theorem mainline_fold {fuel : Nat}
     simp only [List.append_assoc, List.cons_append, List.nil_append]
 
 theorem mainlineIter_spec : ∀ (fuel : Nat) (e : Event), DepthLE m e fuel →
-    ∃ lp, MainlineOf m (plParents m e) lp ∧ ∀ acc, mainlineIter m fuel e acc = lp ++ e :: acc := by
+    ∃ lp, MainlineOf m (plParents m e) lp ∧ ∀ acc, mainlineIterU m fuel e acc = lp ++ e :: acc := by
   intro fuel
   induction fuel with
   | zero => intro e h; exact h.not_zero.elim
@@ -159,8 +279,8 @@ theorem mainline_eq_spec (hac : Acyclic (· ∈ m)) (pl : Option Event) : IsMain
   | none => rfl
   | some e =>
     obtain ⟨lp, hlp, hiter⟩ := mainlineIter_spec (m.length + 2) e ((depthLE_of_acyclic hac e).mono (by omega))
-    show MainlineOf m [e] (mainlineIter m (m.length + 2) e [])
-    rw [hiter]
+    show MainlineOf m [e] (mainlineIter m (m.length + 2) [] e [])
+    rw [mainlineIter_eq_U hac _ _ _ _ (pathOK_nil e), hiter]
     exact mainlineOf_singleton hlp
 
 theorem IsMainline.unique {pl : Option Event} {l₁ l₂ : List Event} (h1 : IsMainline m pl l₁) (h2 : IsMainline m pl l₂) :
@@ -223,15 +343,15 @@ theorem Walk.unique {ps : List Event} {st r₁ r₂ : Nat × Nat} (h1 : Walk m m
 
 /-- the inner loop over all auth events (with the `isPLEvent` test inside) against `Walk` over the filtered list -/
 theorem firstMainline_go {fuel : Nat}
-    (ih : ∀ e st, DepthLE m e fuel → Walk m ml (plParents m e) st (firstMainline m ml fuel e st)) :
+    (ih : ∀ e st, DepthLE m e fuel → Walk m ml (plParents m e) st (firstMainlineU m ml fuel e st)) :
     ∀ (ps : List Event) (st : Nat × Nat), (∀ p ∈ ps.filter isPLEvent, DepthLE m p fuel) →
-      Walk m ml (ps.filter isPLEvent) st (firstMainline.go m ml fuel ps st) := by
+      Walk m ml (ps.filter isPLEvent) st (firstMainlineU.go m ml fuel ps st) := by
   intro ps
   induction ps with
-  | nil => intro st _; rw [V.StateRes.firstMainline.go.eq_1]; exact .nil
+  | nil => intro st _; rw [firstMainlineU.go.eq_1]; exact .nil
   | cons p rest ihr =>
     intro st hd
-    rw [V.StateRes.firstMainline.go.eq_2, List.filter_cons]
+    rw [firstMainlineU.go.eq_2, List.filter_cons]
     by_cases hpl : isPLEvent p = true
     · simp only [hpl, Bool.not_true, Bool.false_eq_true, if_false, if_true]
       rw [List.filter_cons, if_pos hpl] at hd
@@ -247,19 +367,20 @@ theorem firstMainline_go {fuel : Nat}
       exact ihr st hd
 
 theorem firstMainline_spec : ∀ (fuel : Nat) (e : Event) (st : Nat × Nat), DepthLE m e fuel →
-    Walk m ml (plParents m e) st (firstMainline m ml fuel e st) := by
+    Walk m ml (plParents m e) st (firstMainlineU m ml fuel e st) := by
   intro fuel
   induction fuel with
   | zero => intro e st h; exact h.not_zero.elim
   | succ fuel ih =>
     intro e st h
-    rw [V.StateRes.firstMainline.eq_2, plParents_eq]
+    rw [firstMainlineU.eq_2, plParents_eq]
     exact firstMainline_go ih _ st h.parents
 
 /-- `getFirstPowerLevelMainlineEvent` computes the (position, steps) of the definition. -/
 theorem posSteps_eq_spec (hac : Acyclic (· ∈ m)) (e : Event) :
-    MainlinePosSteps m ml e (firstMainline m ml (m.length + 2) e (0, 0)) :=
-  firstMainline_spec (m.length + 2) e (0, 0) ((depthLE_of_acyclic hac e).mono (by omega))
+    MainlinePosSteps m ml e (firstMainline m ml (m.length + 2) [] e (0, 0)) := by
+  rw [firstMainline_eq_U hac _ _ _ _ (pathOK_nil e)]
+  exact firstMainline_spec (m.length + 2) e (0, 0) ((depthLE_of_acyclic hac e).mono (by omega))
 
 theorem MainlinePosSteps.unique {e : Event} {r₁ r₂ : Nat × Nat} (h1 : MainlinePosSteps m ml e r₁)
     (h2 : MainlinePosSteps m ml e r₂) : r₁ = r₂ := Walk.unique h1 h2
@@ -276,13 +397,13 @@ theorem posSteps_of_chainWalk {e : Event} {r : Nat × Nat} (h : ChainWalk m ml e
   walk_of_chainWalk h
 
 theorem firstMainline_of_chainWalk (hac : Acyclic (· ∈ m)) {e : Event} {r : Nat × Nat} (h : ChainWalk m ml e 0 r) :
-    firstMainline m ml (m.length + 2) e (0, 0) = r :=
+    firstMainline m ml (m.length + 2) [] e (0, 0) = r :=
   MainlinePosSteps.unique (posSteps_eq_spec hac e) (posSteps_of_chainWalk h)
 
 /-! ## 6. Mainline ordering -/
 
 theorem otherKey_eq (m ml : List Event) (e : Event) :
-    otherKey m ml e = otherKeyOf e (firstMainline m ml (m.length + 2) e (0, 0)) := rfl
+    otherKey m ml e = otherKeyOf e (firstMainline m ml (m.length + 2) [] e (0, 0)) := rfl
 
 theorem isSortedBy_iff_sortedBy {α κ : Type} (lt : κ → κ → Bool) (key : α → κ) (l : List α) :
     IsSortedBy lt key l ↔ SortedBy lt key l := Iff.rfl
